@@ -27,6 +27,7 @@ void post(int kind, const volatile void* addr, int order, uint64_t a, uint64_t b
 void pause_point();
 void yield_point();
 void note(const char* tag, uint64_t a = 0, uint64_t b = 0);    // harness-level event (op begin/end, result)
+void set_idle_round_limit(size_t n);                          // rounds of 'everybody re-spins, nothing changes' before a deadlock is declared (default 3000)
 bool controlled();                                            // is the calling thread under the scheduler?
 int self();                                                   // controlled thread id or -1
 
@@ -66,6 +67,12 @@ struct Result {
 // Runs the thread bodies under `sch`.  Bodies start parked; returns when all finished or on deadlock
 // (on deadlock the process cannot unwind the stuck threads: the caller must print its report and _exit).
 Result run(const std::vector<std::function<void()>>& bodies, Schedule& sch, size_t max_steps = 2000000);
+
+// --- determinism helpers -------------------------------------------------------------------------------
+// Call first thing in main(): re-executes the process with address-space randomisation off (once), and makes the
+// time-stamp counter virtual (RDTSC traps and returns a counter that advances by a fixed amount per read).
+void init_determinism(int argc, char** argv);
+uint64_t virtual_now_ns();     // virtual monotonic clock: advances by a fixed step per call
 
 // --- canonical printing ------------------------------------------------------------------------------
 void name_addr(const volatile void* addr, const std::string& name);   // symbol table for log output
